@@ -18,6 +18,11 @@
 #include <sstream>
 #include <string>
 #include <vector>
+#if defined(__cpp_lib_ranges) && defined(__cpp_lib_span)
+#include <ranges>
+#include <span>
+#define VSRC_STD_VIEWS 1
+#endif
 
 namespace vsrc
 {
@@ -173,8 +178,48 @@ enum Form
     VEC_IT,
     LIST_IT,
     MOVE_IT,
-    REV_IT
+    REV_IT,
+    VIEW_L,  // lvalue non-owning view over a contiguous container (std::span in C++20 builds)
+    VIEW_R,  // the same as an rvalue: an rvalue RANGE, its items are moved from
+    SUB_R    // rvalue non-owning view over a node-based container (std::ranges::subrange in C++20 builds)
 };
+
+// non-owning views for the C++17 build (the C++20 build uses the standard ones, which are borrowed ranges)
+template <class S>
+struct ContigView
+{
+    S* b;
+    S* e;
+    S* begin() const { return b; }
+    S* end() const { return e; }
+    S* data() const { return b; }
+    std::size_t size() const { return static_cast<std::size_t>(e - b); }
+};
+template <class It>
+struct IterView
+{
+    It b, e;
+    It begin() const { return b; }
+    It end() const { return e; }
+};
+template <class S>
+auto make_contig_view(std::vector<S>& v)
+{
+#ifdef VSRC_STD_VIEWS
+    return std::span<S>{v};
+#else
+    return ContigView<S>{v.data(), v.data() + v.size()};
+#endif
+}
+template <class S>
+auto make_list_view(std::list<S>& l)
+{
+#ifdef VSRC_STD_VIEWS
+    return std::ranges::subrange{l.begin(), l.end()};
+#else
+    return IterView<typename std::list<S>::iterator>{l.begin(), l.end()};
+#endif
+}
 
 template <class T>
 using FixedVec = cntgs::ContiguousVector<cntgs::FixedSize<T>>;
@@ -270,6 +315,21 @@ bool run_form(int form, Result& r)
         case GEN_R:
             do_emplace<Varying, T>(r, N, GenRange<S>{static_cast<int>(N)});
             r.has_after = false;
+            return true;
+        case VIEW_L:
+        {
+            auto view = make_contig_view(vec);
+            do_emplace<Varying, T>(r, N, view);
+            read_after<S>(r, vec);
+            return true;
+        }
+        case VIEW_R:
+            do_emplace<Varying, T>(r, N, make_contig_view(vec));
+            read_after<S>(r, vec);
+            return true;
+        case SUB_R:
+            do_emplace<Varying, T>(r, N, make_list_view(lst));
+            read_after<S>(r, lst);
             return true;
         default: break;
     }
